@@ -180,7 +180,7 @@ impl<'a> Colrv1ClosureContext<'a> {
             return;
         }
 
-        let last_var_index = var_index_base + num_vars as u32 - 1;
+        let last_var_index = var_index_base.saturating_add(num_vars as u32 - 1);
         self.variation_indices
             .insert_range(var_index_base..=last_var_index);
     }
@@ -269,7 +269,7 @@ impl PaintColrLayers<'_> {
             return;
         };
         let first_layer_index = self.first_layer_index();
-        let last_layer_index = first_layer_index + num_layers as u32 - 1;
+        let last_layer_index = first_layer_index.saturating_add(num_layers as u32 - 1);
         c.add_layer_indices(first_layer_index, last_layer_index);
 
         let offset_data = layer_list.offset_data();
